@@ -722,3 +722,9 @@ CONTROLS['C02'] += [
       F('core', 'CacheDataset.__getitem__', lambda n: isinstance(n, ast.If) and A.src(n.test) == 'item < 0',
         lambda n: (setattr(n, 'body', M.parse_stmt('item = item % len(self)')), n)[1]), 'index-not-wrapped-with-modulo'),
 ]
+CONTROLS['C17'] += [
+    C('upper bound follows the (already updated) maximal length instead of this example (P8)',
+      F('core', 'DynamicTimeSeriesBucket._append', lambda n: isinstance(n, ast.FunctionDef) and False or (isinstance(n, ast.Assign) and A.is_self_attr(n.targets[0], 'upper_bound')),
+        lambda n: M.parse_stmt('self.max_len = max(self.max_len, seq_len)\nself.upper_bound = min(self.upper_bound, self.max_len / (1 - self.max_padding_rate))')),
+      'new-upper_bound-from-len', tier='quick'),
+]
